@@ -306,6 +306,16 @@ class KeyedSet(Generic[ItemType, KeyType], MutableSet, KeyedBase):  # pylint: di
 
     # MutableSet implementation
 
+    def _from_iterable(self, it):
+        # Used by the `Set` mixin to build the result of `|`, `&`, `-` and `^`
+        # (always invoked through an instance); the result must keep
+        # identifying items by the same key.
+        return type(self)(
+            it,
+            key=self._key,
+            enforce_item_equivalence=self.enforce_item_equivalence,
+        )
+
     def __contains__(self, item_or_key):
         # Check whether item_or_key exists as a key
         try:
